@@ -311,7 +311,7 @@ func c3TwoCase(t *testing.T, out *zzverif.Out, w *c3Two) {
 		reg   c3Manifest
 		class string
 	}{{"A", c.name, c.reg, classA}, {"B", w.nameB, w.regB, classB}} {
-		where := fmt.Sprintf("pull=%s mode=%s", p.who, w.mode)
+		where := fmt.Sprintf("A=%s pull=%s mode=%s", classA, p.who, w.mode)
 		if strings.HasPrefix(p.class, "panic") {
 			out.L2("panic", line, "site=two-pulls "+p.class+" "+where)
 		}
@@ -322,9 +322,9 @@ func c3TwoCase(t *testing.T, out *zzverif.Out, w *c3Two) {
 			b, ok := disk.blobs[l.ref]
 			switch {
 			case !ok:
-				out.L2("success-missing-layer", line, "layer="+l.ref[:12]+" "+where)
+				out.L2("success-missing-layer", line, fmt.Sprintf("layer=%s shared=%v %s", l.ref[:12], l.ref == w.x, where))
 			case c3Sha(b) != l.ref:
-				out.L2("success-corrupt-layer", line, "layer="+l.ref[:12]+" origin=overlapping-pull "+where)
+				out.L2("success-corrupt-layer", line, fmt.Sprintf("layer=%s origin=overlapping-pull shared=%v %s", l.ref[:12], l.ref == w.x, where))
 			}
 		}
 		if m := disk.mans[p.name]; m == nil {
